@@ -6,6 +6,7 @@ package main
 
 import (
 	"fmt"
+	"github.com/6tail/lunar-go/LunarUtil"
 	"strings"
 
 	"github.com/6tail/lunar-go/calendar"
@@ -151,6 +152,31 @@ func c18Moment(w *W, st ref.Stamp, class string) {
 	fd("by-early-rat-day-pillar-hour-pillar/TimeJi", dge+l.GetTimeInGanZhi(), ls(listStrings(l.GetTimeJi())))
 	fd("by-early-rat-day-pillar-hour-pillar/TimeYi", dge+lt.GetGanZhi(), ls(listStrings(lt.GetYi())))
 	fd("by-early-rat-day-pillar-hour-pillar/TimeJi", dge+lt.GetGanZhi(), ls(listStrings(lt.GetJi())))
+	// the exported table functions are the same tables asked directly: their answers join the same dependency monitors
+	// (a different pair of arguments each time, also ones the calendar has not produced yet in this process)
+	if st.S%3 == 0 {
+		mp, dp := l.GetMonthInGanZhiExact(), dgz
+		fd("by-month-pillar-day-pillar/DayYi", mp+dp, ls(listStrings(LunarUtil.GetDayYi(mp, dp))))
+		fd("by-month-pillar-day-pillar/DayJi", mp+dp, ls(listStrings(LunarUtil.GetDayJi(mp, dp))))
+		fd("by-lunar-month-day-pillar/DayJiShen", fmt.Sprint(am)+dgz, ls(listStrings(LunarUtil.GetDayJiShen(l.GetMonth(), dgz))))
+		fd("by-lunar-month-day-pillar/DayXiongSha", fmt.Sprint(am)+dgz, ls(listStrings(LunarUtil.GetDayXiongSha(l.GetMonth(), dgz))))
+		fd("by-early-rat-day-pillar-hour-pillar/TimeYi", dge+l.GetTimeInGanZhi(), ls(listStrings(LunarUtil.GetTimeYi(dge, l.GetTimeInGanZhi()))))
+		fd("by-early-rat-day-pillar-hour-pillar/TimeJi", dge+l.GetTimeInGanZhi(), ls(listStrings(LunarUtil.GetTimeJi(dge, l.GetTimeInGanZhi()))))
+		// a pair of arguments unrelated to this moment (all 60 x 60 combinations come up over a run)
+		rp, rq := ref.Pair60(int(st.Secs()/7)%60), ref.Pair60(int(st.Secs()/11)%60)
+		fd("by-month-pillar-day-pillar/DayYi", rp+rq, ls(listStrings(LunarUtil.GetDayYi(rp, rq))))
+		fd("by-month-pillar-day-pillar/DayJi", rp+rq, ls(listStrings(LunarUtil.GetDayJi(rp, rq))))
+		fd("by-early-rat-day-pillar-hour-pillar/TimeYi", rp+rq, ls(listStrings(LunarUtil.GetTimeYi(rp, rq))))
+		fd("by-early-rat-day-pillar-hour-pillar/TimeJi", rp+rq, ls(listStrings(LunarUtil.GetTimeJi(rp, rq))))
+		rm := 1 + int(st.Secs()/13)%12
+		fd("by-lunar-month-day-pillar/DayJiShen", fmt.Sprint(rm)+rq, ls(listStrings(LunarUtil.GetDayJiShen(rm, rq))))
+		fd("by-lunar-month-day-pillar/DayXiongSha", fmt.Sprint(rm)+rq, ls(listStrings(LunarUtil.GetDayXiongSha(-rm, rq))))
+		fd("by-pair/Xun", rq, LunarUtil.GetXun(rq))
+		fd("by-pair/XunKong", rq, LunarUtil.GetXunKong(rq))
+		if LunarUtil.GetJiaZiIndex(rq) != ref.PairIndex(rq) || LunarUtil.GetXunIndex(rq) != ref.XunIndex(ref.PairIndex(rq)) {
+			w.Violatef("law-xun", rq+"/util", "LunarUtil.GetJiaZiIndex(%s)=%d GetXunIndex=%d", rq, LunarUtil.GetJiaZiIndex(rq), LunarUtil.GetXunIndex(rq))
+		}
+	}
 	// lunar month and day
 	fd("by-lunar-day/YueXiang", fmt.Sprint(l.GetDay()), l.GetYueXiang())
 	fd("by-lunar-month-day/LiuYao", fmt.Sprintf("%d-%d", am, l.GetDay()), l.GetLiuYao())
